@@ -116,6 +116,11 @@ func c08Gen(class string, seed uint64, tier string) *vfScenario {
 		sc.Cfg["alloc"] = int64(rng.IntN(2))
 		sc.Cfg["which"] = int64(rng.IntN(3))
 		sc.Cfg["lenkind"] = int64(rng.IntN(9)) // 0 keep; else a special value
+		if class == "frame-fx" && rng.IntN(2) == 0 {
+			// the caller's limit and the buffer it lends (capacity above or below the limit)
+			sc.Cfg["fxlim"] = int64(rng.IntN(7))
+			sc.Cfg["fxbuf"] = int64(rng.IntN(7))
+		}
 		f := vfFault{K: "cut", At: int64(rng.IntN(200)), A: int64(rng.IntN(3))}
 		if rng.IntN(4) > 0 {
 			sc.Faults = []vfFault{f}
@@ -156,6 +161,16 @@ func c08Enumerate(tier string, base uint64, emit func(*vfScenario)) {
 					n++
 					emit(&vfScenario{Prop: "C08", Class: []string{"frame", "frame-fx"}[rd], Seed: vfMix(seed, uint64(n)), Cfg: map[string]int64{"nframes": 2, "alloc": int64(lk % 2), "which": int64(cut % 2), "lenkind": int64(lk)},
 						Faults: []vfFault{{K: "cut", At: int64(cut), A: int64(kind * 2)}}})
+					if rd == 1 && cut%8 == 0 {
+						// every (limit, lent buffer) combination of the filexfer reader
+						for li := 0; li < 7; li++ {
+							for bi := 0; bi < 7; bi++ {
+								n++
+								emit(&vfScenario{Prop: "C08", Class: "frame-fx", Seed: vfMix(seed, uint64(n)), Cfg: map[string]int64{"nframes": 2, "which": int64(cut % 2), "lenkind": int64(lk), "fxlim": int64(li), "fxbuf": int64(bi)},
+									Faults: []vfFault{{K: "cut", At: int64(cut + 60), A: int64(kind * 2)}}})
+							}
+						}
+					}
 				}
 			}
 		}
@@ -227,6 +242,17 @@ func c08Frame(r *vfRun) {
 	if sc.cfg("alloc", 0) != 0 && !fx {
 		alloc = newAllocator()
 	}
+	// the filexfer reader takes the limit and a buffer to reuse from its caller
+	limit := uint32(256 * 1024)
+	var fxbuf []byte
+	if fx {
+		if li := sc.cfg("fxlim", 0); li > 0 {
+			limit = []uint32{256 * 1024, 32, 48, 63, 64, 100, 1024}[int(li)%7]
+		}
+		if bi := sc.cfg("fxbuf", 0); bi > 0 {
+			fxbuf = make([]byte, 0, []int{0, 4, 16, 64, 200, 2000, 300000}[int(bi)%7])
+		}
+	}
 	type result struct {
 		typ     byte
 		payload []byte
@@ -255,7 +281,7 @@ func c08Frame(r *vfRun) {
 				runtime.ReadMemStats(&ms0)
 				if fx {
 					var p sshfx.RawPacket
-					res.err = p.ReadFrom(pipe, nil, 256*1024)
+					res.err = p.ReadFrom(pipe, fxbuf, limit)
 					if res.err == nil {
 						res.typ = byte(p.PacketType)
 						res.payload = append(binary.BigEndian.AppendUint32(nil, p.RequestID), p.Data.Bytes()...)
@@ -314,7 +340,7 @@ func c08Frame(r *vfRun) {
 				r.fail("C08/short-packet-delivered", "header-cut", "a packet was returned although the stream ends inside the length prefix; %s", what)
 			}
 			return
-		case f.declared < minLen || f.declared > 256*1024:
+		case f.declared < minLen || f.declared > limit:
 			if res.err == nil {
 				r.fail("C08/bad-length-accepted", fmt.Sprintf("len-%d", lk), "a frame with declared length %d was accepted; %s", f.declared, what)
 				return
